@@ -334,3 +334,160 @@ func checkReaderDecodesHits(c *core.Ctx, rule string) {
 		c.Undecided(rule, "batched.(*conn).reader#hit-decoding", c.P.Pos(rd.Pos()), "the reader builds no hit response")
 	}
 }
+
+// checkReaderSkipsWholeBodies (R6.15): a reply the pool reader does not decode (error statuses, replies of non-get
+// commands) is skipped whole: the number of bytes discarded from the stream is the TotalBodyLength of the header just
+// read. Replies of touch carry extras, error replies carry a message; skipping anything else (the key length, a
+// constant) leaves body bytes in front of the next reply header: the batch is abandoned ("bad magic"), its callers
+// retry commands that were in fact executed - an append applied twice - and their own results are lost.
+func checkReaderSkipsWholeBodies(c *core.Ctx, rule string) {
+	rd := findFunc(c, relBatched, "(*conn).reader", rolePoolReader)
+	if rd == nil {
+		c.Undecided(rule, "batched.(*conn).reader#skipped-bodies", "-", "reader not found")
+		return
+	}
+	pv := &ssax.Prov{}
+	counts := map[string]int{}
+	n := 0
+	ssax.Instrs(rd, func(ins ssa.Instruction) {
+		cc := ssax.CallOf(ins)
+		if cc == nil || len(cc.Args) < 2 {
+			return
+		}
+		name := ssax.CalleeName(cc)
+		if name != "(*bufio.Reader).Discard" && name != "(*bufio.ReadWriter).Discard" && !strings.HasSuffix(name, ").Discard") {
+			return
+		}
+		n++
+		key := ordinalKey(counts, "batched.(*conn).reader#skipped-body")
+		srcs := pv.Sources(cc.Args[1])
+		ok := len(srcs) > 0 && ssax.All(srcs, func(s ssax.Src) bool {
+			return s.Kind == "call" && strings.HasSuffix(ssax.CalleeName(s.Call), "binprot.ReadResponseHeader") && s.Res == 0 &&
+				len(s.Path) == 1 && s.Path[0] == "TotalBodyLength"
+		})
+		c.Check(ok, rule, key, c.P.Pos(ins.Pos()), "the whole body of the reply just read is discarded",
+			fmt.Sprintf("the reader discards %v bytes of a reply it does not decode, not the TotalBodyLength of the header just read: the rest of the body is taken for the next reply header", ssax.Strings(srcs)))
+	})
+	if n == 0 {
+		c.Undecided(rule, "batched.(*conn).reader#skipped-bodies", "-", "the reader discards nothing")
+	}
+}
+
+// checkRelayPublishedReady (R6.16): a relay is shared by all client connections that use one backend socket, and
+// submit() picks one of its connections at random - with none it panics (rand.Intn(0)). The relay therefore becomes
+// visible to other connections (the registry lock is released after its registration) only after the goroutine that
+// adds the first connection has said so: the constructor's wait for that goroutine precedes the release of the lock,
+// and the goroutine signals only after it stored the first connection.
+func checkRelayPublishedReady(c *core.Ctx, rule string) {
+	key := "batched.getRelay#published-with-a-connection"
+	var ctor *ssa.Function
+	var regs []ssa.Instruction
+	for _, fn := range pkgFuncs(c, relBatched) {
+		ssax.Instrs(fn, func(ins ssa.Instruction) {
+			mu, ok := ins.(*ssa.MapUpdate)
+			if !ok {
+				return
+			}
+			if g := globalOf(mu.Map); g != nil && strings.HasSuffix(types.TypeString(mu.Value.Type(), nil), "batched.relay") {
+				ctor = fn
+				regs = append(regs, ins)
+			}
+		})
+	}
+	if ctor == nil {
+		c.Undecided(rule, key, "-", "no registration of a relay in a package-level map found")
+		return
+	}
+	// the wait: a receive from a channel that is handed to a goroutine started in the constructor
+	var waits []ssa.Instruction
+	var starter *ssa.Go
+	ssax.Instrs(ctor, func(ins ssa.Instruction) {
+		g, ok := ins.(*ssa.Go)
+		if !ok {
+			return
+		}
+		for _, a := range g.Call.Args {
+			if _, isChan := a.Type().Underlying().(*types.Chan); !isChan {
+				continue
+			}
+			ssax.Instrs(ctor, func(r ssa.Instruction) {
+				if u, ok := r.(*ssa.UnOp); ok && u.Op == token.ARROW && u.X == a {
+					waits = append(waits, r)
+					starter = g
+				}
+			})
+		}
+	})
+	var bad []string
+	if len(waits) == 0 {
+		bad = append(bad, "the constructor does not wait for the goroutine that adds the first connection")
+	}
+	// every release of a lock after the registration is preceded by the wait
+	for _, reg := range regs {
+		ssax.Instrs(ctor, func(u ssa.Instruction) {
+			cc := ssax.CallOf(u)
+			if cc == nil || !strings.HasSuffix(ssax.CalleeName(cc), ").Unlock") || len(cc.Args) == 0 || globalOf(cc.Args[0]) == nil {
+				return
+			}
+			if _, isDefer := u.(*ssa.Defer); isDefer {
+				return
+			}
+			after, _ := (ssax.Reach{Target: func(i ssa.Instruction) bool { return i == u }}).From(reg)
+			if after == nil {
+				return
+			}
+			waited := false
+			for _, w := range waits {
+				if ssax.DominatesInstr(w, u) {
+					waited = true
+				}
+			}
+			if !waited {
+				bad = append(bad, fmt.Sprintf("the registry lock is released at %s, after the relay was registered at %s, without the wait for its first connection in between", c.P.Pos(u.Pos()), c.P.Pos(reg.Pos())))
+			}
+		})
+	}
+	// the goroutine signals after it stored a connection
+	if starter != nil {
+		if callee := starter.Call.StaticCallee(); callee != nil && len(callee.Blocks) > 0 {
+			var adds []ssa.Instruction
+			ssax.Instrs(callee, func(ins ssa.Instruction) {
+				cc := ssax.CallOf(ins)
+				if cc == nil {
+					return
+				}
+				if f := cc.StaticCallee(); f != nil && f.Pkg == callee.Pkg {
+					stores := false
+					ssax.Instrs(f, func(i ssa.Instruction) {
+						if c2 := ssax.CallOf(i); c2 != nil && ssax.CalleeName(c2) == "(*sync/atomic.Value).Store" {
+							stores = true
+						}
+					})
+					if stores {
+						adds = append(adds, ins)
+					}
+				}
+			})
+			ssax.Instrs(callee, func(ins ssa.Instruction) {
+				s, ok := ins.(*ssa.Send)
+				if !ok {
+					return
+				}
+				if _, isParam := s.Chan.(*ssa.Parameter); !isParam {
+					return
+				}
+				okSend := false
+				for _, a := range adds {
+					if ssax.DominatesInstr(a, ins) {
+						okSend = true
+					}
+				}
+				if !okSend {
+					bad = append(bad, fmt.Sprintf("%s signals at %s before it has stored a connection", core.FuncName(callee), c.P.Pos(ins.Pos())))
+				}
+			})
+		}
+	}
+	c.Check(len(bad) == 0, rule, key, c.P.Pos(ctor.Pos()), "the relay is registered and the registry lock released only after its first connection exists",
+		strings.Join(uniq(bad), "; ")+": a second client connection picks up a relay without connections and panics in submit (rand.Intn(0)); its command gets no outcome")
+}
